@@ -319,6 +319,21 @@ def xliqtLine (s : HistState) (t : List String) : Option String :=
                     pure s!"ok {a.1} {b.1} {da} {db}"
   | _ => none
 
+/-- `H xopen kind lower upper ownerIsFunder`: open_position / open_position_with_token_extensions on the
+    current pool (read-only): derive sentinel bounds from the price, validate the range -/
+def xopenLine (s : HistState) (t : List String) : Option String :=
+  match t with
+  | [_kind, lo, hi, _own] => do
+    let lo ← lo.toInt?
+    let hi ← hi.toInt?
+    match resolveOneSided lo hi s.pool.ts s.pool.price with
+    | .error e => pure ("err " ++ e.name)
+    | .ok (l, u) =>
+      match validateTickRange s.pool.ts l u with
+      | .error e => pure ("err " ++ e.name)
+      | .ok _ => pure s!"ok {l} {u}"
+  | _ => none
+
 /-- `H xlock id authMode follow`: lock_position, then one follow-up instruction on the locked position, on the
     current state (read-only).  Only positions with liquidity can be locked; a locked position cannot have
     liquidity removed, be closed, re-ranged, repositioned or locked again; adding liquidity, collecting fees
